@@ -41,6 +41,8 @@ class Profile:
         self.p_active_guard = 0.12     # guards that also read the configuration through active()
         self.active_in_actions = True  # actions may read the configuration through active()
         self.use_objects = False        # context holds an object, a list and a function defined in the preamble (b, l, ok)
+        self.p_brace_guard = 0.06      # guards whose text contains braces
+        self.p_prefix_names = 0.08     # per chart: every state name is a proper prefix of the next one (n, n0, n00, ...)
         self.p_char_names = 0.12       # per chart: three states named by single characters occurring in the other names
         self.p_varied_names = 0.12     # per chart: state names of varied shape (unicode, long, mixed case, digits) instead of nDD
         self.p_large = 0.05            # per chart: a large statechart (up to 40 states, deeper nesting)
@@ -76,6 +78,12 @@ class Gen:
                 names.append('State_number_%d_with_a_rather_long_descriptive_name' % len(names))
             self.pool = names
             return names
+        if self.rng.random() < self.p.p_prefix_names:
+            # names that are substrings of one another ('in' on two strings is a substring test)
+            names = ['s' + ('0' * i) for i in range(max(n, 1) + 20)]
+            self.rng.shuffle(names)
+            self.pool = names[:12]
+            return names
         names = NAMES[:max(n, 1) + 20]
         if self.p.shuffle_names:
             self.rng.shuffle(names)
@@ -101,6 +109,9 @@ class Gen:
             return base + ' and x %s %d' % (self.rng.choice(['<', '>=', '!=']), self.rng.randint(0, 3))
         if r < self.p.p_time_guard + 0.14 + self.p.p_active_guard:
             return base + self.rng.choice([" and not active('%s')", " and active('%s')", " or active('%s')"]) % self.rng.choice(self.pool)
+        if r < self.p.p_time_guard + 0.14 + self.p.p_active_guard + self.p.p_brace_guard:
+            # code text containing braces / format-like fields (it ends up inside messages and string templates)
+            return self.rng.choice(['(g >> %d) & 1 in {1}', '{0: (g >> %d) & 1}[0] == 1', "'{t1}{}' != '' and (g >> %d) & 1 == 1"]) % k
         return base
 
     def action(self, allow_send=True):
